@@ -35,6 +35,16 @@ def validation_dominates_io(repo, col):
         cfg = fn.cfg()
         owner = enclosing_stmt_map(fn.node)
         io_calls = _calls(fn, lambda c: _attr_call(c, io_attr))
+        if not io_calls and fn.cls is not None:
+            # the I/O may sit in a helper method of the same class
+            for c in calls_in(fn.node):
+                if isinstance(c.func, ast.Attribute) and \
+                        isinstance(c.func.value, ast.Name) and \
+                        c.func.value.id == "self" and \
+                        c.func.attr in fn.cls.methods and any(
+                            _attr_call(x, io_attr) for x in calls_in(
+                                fn.cls.methods[c.func.attr].node)):
+                    io_calls.append(c)
         if not io_calls:
             raise AnalysisError("anchor vanished: %s no longer calls "
                                 "accessor.%s" % (fn.key, io_attr))
@@ -288,20 +298,34 @@ def level_driver(repo, col):
         raise AnalysisError("anchor vanished: level loop in %s" % fn.key)
     loop = loops[0]
     it = norm(loop.iter)
-    ok_range = it.startswith("range(len(") and it.endswith(") - 1)") and \
-        "['scales']" in it
+    from .intexpr import canon, NotInt
+    ok_range, und_range = False, True
+    if isinstance(loop.iter, ast.Call) and call_name(loop.iter) == "range" \
+            and len(loop.iter.args) == 1:
+        try:
+            c = canon(loop.iter.args[0])
+        except NotInt:
+            c = None
+        if c and "len(" in c and "scales" in c:
+            und_range = False
+            ok_range = c.startswith("-1 + len(")
     col.add(rule, fn, "for i in %s" % it, ok_range,
             "covers every transition i -> i+1" if ok_range else
             "level loop does not cover range(len(scales) - 1): some scale "
-            "transitions are skipped or out of range", node=loop)
+            "transitions are skipped or out of range", node=loop,
+            undecided=und_range)
     lv = loop.target.id if isinstance(loop.target, ast.Name) else None
     calls = [c for c in calls_in(loop)
              if (call_name(c) or "").endswith("compute_dyadic_downscaling")]
     ok_call = bool(calls) and len(calls[0].args) >= 2 and \
         norm(calls[0].args[1]) == lv
+    und_call = not calls or lv is None or (
+        len(calls[0].args) >= 2 and lv not in names_in(calls[0].args[1])
+        and not isinstance(calls[0].args[1], ast.Constant))
     col.add(rule, fn, "compute_dyadic_downscaling(info, i, ...)", ok_call,
             "source scale index is the loop variable" if ok_call else
-            "source scale index is not the loop variable", node=loop)
+            "source scale index is not the loop variable", node=loop,
+            undecided=not ok_call and und_call)
     if calls:
         c = calls[0]
         same_io = len(c.args) >= 5 and norm(c.args[3]) == norm(c.args[4])
@@ -331,12 +355,24 @@ def level_driver(repo, col):
         idx_close = max(i for i, s in enumerate(loop.body)
                         if any(_attr_call(x, "close") for x in calls_in(s)))
         ok_close = idx_close > idx_call
+    other_calls = False
+    if calls and not closes:
+        seen_call = False
+        for st in loop.body:
+            cs = calls_in(st)
+            if any(x is calls[0] for x in cs):
+                seen_call = True
+                continue
+            if seen_call and any(not (call_name(x) or "").startswith(
+                    ("logger.", "logging.", "print", "isinstance"))
+                    for x in cs):
+                other_calls = True
     col.add(rule, fn, "accessor.close() between levels", ok_close,
             "sharded output of level i+1 is flushed before it is read as the "
             "source of level i+2" if ok_close else
             "sharded accessor is not closed after writing a level: the next "
             "level reads shards that are still buffered in memory",
-            node=loop)
+            node=loop, undecided=not ok_close and other_calls)
 
 
 # ---------------------------------------------------------------------
@@ -360,6 +396,7 @@ def _closing_loop(fn, container_attr):
         if not isinstance(st, ast.For):
             continue
         it_names = closure_names(fn.node, names_in(st.iter), defs)
+        # (comprehension form `[x.close() for x in ...]` handled below)
         txt = norm(st.iter)
         derives = ("self.%s" % container_attr) in txt or any(
             ("self.%s" % container_attr) in norm(d.value)
@@ -372,6 +409,21 @@ def _closing_loop(fn, container_attr):
                     and _attr_call(s.value, "close") \
                     and norm(s.value.func.value) == v:
                 return st
+    for st in top_level(fn.node.body):
+        if isinstance(st, ast.Expr) and isinstance(st.value, (ast.ListComp,
+                                                              ast.GeneratorExp)):
+            lc = st.value
+            g = lc.generators[0]
+            if ("self.%s" % container_attr) in norm(g.iter) and \
+                    isinstance(lc.elt, ast.Call) and _attr_call(lc.elt, "close") \
+                    and isinstance(g.target, ast.Name) and \
+                    norm(lc.elt.func.value) == g.target.id:
+                fake = ast.For(target=g.target, iter=g.iter, body=[st],
+                               orelse=[])
+                ast.copy_location(fake, st)
+                fake.end_lineno = st.end_lineno
+                fake.end_col_offset = st.end_col_offset
+                return fake
     return None
 
 
@@ -605,12 +657,23 @@ def minishard_drain(repo, col):
         pops = [c for c in calls_in(loops[0]) if _attr_call(c, "pop")]
         apps = [c for c in calls_in(loops[0])
                 if (call_name(c) or "").endswith("self.append")]
-        okp = bool(pops) and bool(apps) and \
-            norm(pops[0].args[0]) == "self.next_cmc" and \
-            len(apps[0].args) == 2 and norm(apps[0].args[1]) == "self.next_cmc"
+        fdefs = local_defs(fb.node)
+
+        def is_next(e):
+            if norm(e) == "self.next_cmc":
+                return True
+            if isinstance(e, ast.Name):
+                vs = [d.value for d in fdefs.get(e.id, []) if d.value is not None]
+                return len(vs) == 1 and norm(vs[0]) == "self.next_cmc"
+            return False
+        okp = bool(pops) and bool(apps) and pops[0].args and \
+            is_next(pops[0].args[0]) and \
+            len(apps[0].args) == 2 and is_next(apps[0].args[1]) and \
+            (norm(pops[0].args[0]) == norm(apps[0].args[1]))
         col.add(rule, fb, "pop(next) -> append(buf, next)", okp,
                 "" if okp else "the parked chunk is not appended under the id "
-                "it was parked with", node=loops[0])
+                "it was parked with", node=loops[0],
+                undecided=not okp and not (pops and apps))
     # store path: appended iff can_be_appended, else parked under its own id
     st = repo.func("sharded_file_accessor", "MiniShard.store_cmc_chunk")
     parked = [n for n in walk_local(st.node) if isinstance(n, ast.Assign)
